@@ -64,6 +64,11 @@ def inputs(rng, thorough):
         else:
             new.append(l)
     out.append(("1HPX[18:70] three alternate locations on three side chains", "\n".join(new) + "\n"))
+    # two copies of one ligand in ONE chain, with alternate locations elsewhere (ligand labels carry no residue number)
+    t4 = structures.read("4DFR.pdb")
+    keep = [l for l in t4.splitlines() if structures.is_atom(l) and l[17:20] != "HOH" and (l[21] == "A" or l[17:20] == "MTX")]
+    keep = [(l[:21] + "A" + " 900" + l[26:]) if (l[17:20] == "MTX" and l[21] == "B") else l for l in keep]
+    out.append(("4DFR chain A with both methotrexates as chain A (161 and 900)", "\n".join(keep) + "\nEND\n"))
     if thorough:
         out.append(("4DFR.pdb", structures.read("4DFR.pdb")))
     return out, fr
@@ -93,6 +98,16 @@ def run(chk: common.Check):
         # ---- conformation names: '<model><tag>' with digits 1-9 -> A-I, blank -> A, sorted by 100*model + ord(tag)
         if names != sorted(names, key=lambda c: int(c[:-1]) * 100 + ord(c[-1])) or any(not c[-1].isalpha() and c[-1] != "0" for c in names if c[-1] in "123456789"):
             found.append(("conformation-names", f"{name}: conformation names {names}", {"case": name}))
+        # ---- single-model files: one conformation per alternate-location tag, letters as they are, digits 1..9 as A..I
+        text_lines = text.splitlines()
+        if not any(l[:6] == "MODEL " for l in text_lines):
+            tags = sorted({l[16] for l in text_lines if structures.is_atom(l) and len(l) > 16 and l[16] != " "})
+            conv = lambda t_: chr(ord(t_) + 16) if t_ in "123456789" else t_
+            blank = any(structures.is_atom(l) and len(l) > 16 and l[16] == " " for l in text_lines)      # untagged atoms form conformation A
+            want_names = sorted({"1" + conv(t_) for t_ in tags} | ({"1A"} if blank or not tags else set()))
+            if sorted(names) != want_names:
+                found.append(("conformation-per-tag", f"{name}: alternate-location tags {tags} give conformations {names}, expected {want_names}", {"case": name, "tags": tags,
+                                                                                                                                                 "pdb_text": text if len(text) < 30000 else None}))
         # ---- every group reported in some conformation is in AVR, once
         keyf = lambda g: (g.atom.residue_label, g.type)
         for c in names:
